@@ -52,11 +52,22 @@ def _number_at(p, eset):
 
 def gen_problem(rng, tier):
     h, w = rng.choice(_SHAPES)
-    mode = rng.random()
+    return _gen(rng, h, w)
+
+
+def extra_program_problems(rng):
+    """Larger boards for the program correspondence only (nothing is enumerated there): one non-square medium board and two
+    with more than 256 cells (a tall and a wide one); the numbers are read off a random loop
+    (`_loop.random_loop`), long straight segments included."""
+    return [_gen(rng, h, w, _loop.random_loop(rng, h, w, rng.choice([0.3, 0.6]))) for h, w in _loop.big_shapes(rng)]
+
+
+def _gen(rng, h, w, a=None):
+    mode = rng.random() if a is None else 0.0
     pb = [[0] * w for _ in range(h)]
     if mode < 0.7:
-        loops = _loop.single_loops(h, w)
-        a = rng.choice(loops)
+        if a is None:
+            a = rng.choice(_loop.single_loops(h, w))
         eset = set(_loop.active_edges(a, h, w))
         keep = rng.choice([0.2, 0.5, 1.0])
         for y in range(h):
